@@ -515,7 +515,9 @@ def run_pair(p, seed, ev, viol):
     try:
         res = rewrite(model, [rule])
     except Exception as e:
-        v(f"kind=raises;err={type(e).__name__}", f"rewrite() raises {type(e).__name__}: {str(e)[:300]}", model=M_bytes.hex()[:40000])
+        cause = e.__cause__ or e.__context__
+        v(f"kind=raises;err={type(e).__name__}", f"rewrite() raises {type(e).__name__}: {str(e)[:300]}" +
+          (f" <- {type(cause).__name__}: {str(cause)[:300]}" if cause is not None else ""), model=M_bytes.hex()[:40000])
         return None
     hit("pairs_checked")
     hit("try_rewrite_calls", COUNTS["try_rewrite_calls"] - c0["try_rewrite_calls"])
@@ -726,8 +728,9 @@ _ORIG_NAMES: set = set()
 
 def _invalid_mech(msg, kind):
     m = msg.lower()
-    if any(t.get("init_clash") for t in LOG if t["ev"] == "try"):
-        # a new initializer had the name of one already registered in that graph when the rule fired
+    clash = any(t.get("init_clash") for t in LOG if t["ev"] == "try")
+    if clash and ("is not a graph input, initializer" in m or "not defined before use" in m or "not output of any previous nodes" in m):
+        # a new initializer had the name of one already registered in that graph when the rule fired, and a value is dangling
         return "initializer_name_clash"
     if "is not a graph input, initializer" in m or "not defined before use" in m or "not output of any previous nodes" in m:
         return "undefined_input"
@@ -743,6 +746,8 @@ def _invalid_mech(msg, kind):
         return "extracted_function_without_opset_import"
     if "opset import" in m or "is used but not imported" in m or "no opset import" in m or "no opset registered" in m:
         return "opset_import_missing"
+    if clash:
+        return "initializer_name_clash"
     if "function" in m:
         return "function"
     return "other"
